@@ -48,9 +48,10 @@ def _build(circ, nm):
             elif kind == "G2":
                 ops.BSgate(0.3 + 0.01 * k, 0.2) | (regs[s[1]], regs[s[2]])
             elif kind == "MF":
-                ops.MeasureFock() | regs[s[1]]
+                # every second measurement post-selects (value k % 3): options are part of a command
+                ops.MeasureFock(**({"select": [k % 3]} if k % 2 else {})) | regs[s[1]]
             elif kind == "MF2":
-                ops.MeasureFock() | (regs[s[1]], regs[s[2]])
+                ops.MeasureFock(**({"select": [k % 3, (k + 1) % 3]} if k % 2 else {})) | (regs[s[1]], regs[s[2]])
             elif kind == "MH":
                 ops.MeasureHomodyne(0.0) | regs[s[1]]
             elif kind == "V":
@@ -87,23 +88,27 @@ def _cases_for(arg):
     seq = list(prog.circuit)
     ident = {id(c): k + 1 for k, c in enumerate(seq)}
 
+    def optcodes(c):
+        sel = getattr(c.op, "select", None)
+        return [] if sel is None else [[r.ind, int(v) + 1] for r, v in zip(c.reg, sel) if v is not None]
+
     def abstract(pred):
         return [{"id": k + 1, "wires": sorted({r.ind for r in c.get_dependencies()} | {r.ind for r in c.reg}),
-                 "marked": bool(pred(c.op))} for k, c in enumerate(seq)]
+                 "marked": bool(pred(c.op)), "opt": optcodes(c)} for k, c in enumerate(seq)]
 
     def ids(cmds):
         return [ident.get(id(c), 0) for c in cmds]
     none = PREDS["none"](ops)
     try:
         o1 = pu.DAG_to_list(pu.list_to_DAG(seq))
-        out.append({"kind": "topo", "fn": "list_to_DAG/DAG_to_list", "circ": abstract(none), "out": ids(o1), "a": 0, "b": 0, "merged": []})
+        out.append({"kind": "topo", "fn": "list_to_DAG/DAG_to_list", "circ": abstract(none), "out": ids(o1), "a": 0, "b": 0, "merged": [], "mergedopt": []})
         o2 = pu.DAG_to_list(pu.grid_to_DAG(pu.list_to_grid(list(reversed(list(reversed(seq)))))))
-        out.append({"kind": "topo", "fn": "list_to_grid/grid_to_DAG/DAG_to_list", "circ": abstract(none), "out": ids(o2), "a": 0, "b": 0, "merged": []})
+        out.append({"kind": "topo", "fn": "list_to_grid/grid_to_DAG/DAG_to_list", "circ": abstract(none), "out": ids(o2), "a": 0, "b": 0, "merged": [], "mergedopt": []})
         for pname in ("fock", "meas", "two"):
             pred = PREDS[pname](ops)
             A, B, C = pu.group_operations(seq, pred)
             out.append({"kind": "group", "fn": "group_operations[%s]" % pname, "circ": abstract(pred), "out": ids(list(A) + list(B) + list(C)),
-                        "a": len(A), "b": len(B), "merged": []})
+                        "a": len(A), "b": len(B), "merged": [], "mergedopt": []})
     except Exception as e:  # noqa
         out.append({"error": type(e).__name__, "msg": str(e)[:200], "fn": "program_utils", "circ_shapes": circ})
     # GBS target: only circuits made of its primitives keep command identity
@@ -120,7 +125,9 @@ def _cases_for(arg):
                             "fn": "GBS.compile", "circ_shapes": circ})
             else:
                 out.append({"kind": "gbs", "fn": "GBS.compile", "circ": abstract(pred), "out": body + members, "a": len(body),
-                            "b": len(members), "merged": [r.ind for r in last.reg]})
+                            "b": len(members), "merged": [r.ind for r in last.reg],
+                            "mergedopt": [[r.ind, 0 if (last.op.select is None or v is None) else int(v) + 1]
+                                          for r, v in zip(last.reg, last.op.select or [None] * len(last.reg))]})
         except pu.CircuitError:
             out.append({"refused": True, "fn": "GBS.compile"})
         except Exception as e:  # noqa
@@ -137,7 +144,7 @@ def validate(chk, cases, label):
         chunk = chunks[ci]
         path = os.path.join(chk.tmp, "order_%s_%d.json" % (label, ci))
         with open(path, "w") as f:
-            json.dump([{k: c[k] for k in ("circ", "kind", "out", "a", "b", "merged")} for c in chunk], f)
+            json.dump([{k: c[k] for k in ("circ", "kind", "out", "a", "b", "merged", "mergedopt")} for c in chunk], f)
         r = common.run_tlc("TraceOrder", invariants=["Report"], workers=4, env={"CASES_FILE": path}, tmp=chk.tmp)
         return ci, r
     with ThreadPoolExecutor(4) as ex:
